@@ -15,6 +15,7 @@ const (
 	DecNameConflict = "KF-DEC-field-name-conflict"
 	DecStringTag    = "KF-DEC-string-tag-on-unsupported-kind"
 	DecCaseFoldKey  = "KF-DEC-case-insensitive-key-match"
+	DecSliceReuse   = "KF-DEC-slice-reuse-null-element"
 )
 
 // dedupDec renames fields so that no two fields of a struct (including its embedded structs) share a
@@ -98,7 +99,32 @@ func DecExpect(spec *gen.TypeSpec, doc []byte, entry string, prepop bool) string
 	if rt.Active(DecCaseFoldKey) && hasCaseVariantKey(spec, doc) {
 		return DecCaseFoldKey
 	}
+	if rt.Active(DecSliceReuse) && hasNullArrayElement(doc) && spec.Has(func(n *gen.TypeSpec) bool { return n.K == "slice" || n.K == "leaf:NSlice" }) {
+		return DecSliceReuse
+	}
 	return ""
+}
+
+// hasNullArrayElement: the document contains null as an element of an array.
+func hasNullArrayElement(doc []byte) bool {
+	toks, err := ref.Tokens(doc)
+	if err != nil {
+		return false
+	}
+	var stack []byte
+	for i, t := range toks {
+		switch t.Kind {
+		case ref.TArrOpen, ref.TObjOpen:
+			stack = append(stack, t.Kind)
+		case ref.TArrClose, ref.TObjClose:
+			stack = stack[:len(stack)-1]
+		case ref.TNull:
+			if len(stack) > 0 && stack[len(stack)-1] == ref.TArrOpen && i > 0 && (toks[i-1].Kind == ref.TArrOpen || toks[i-1].Kind == ref.TComma) {
+				return true
+			}
+		}
+	}
+	return false
 }
 
 var leafFieldNames = map[string][]string{
